@@ -138,9 +138,10 @@ BoxKeys ==
   Mk("crypto_box_beforenm", Z, Z, {0, 1}, "try", LAMBDA a, b : <<Out(32), In(32), In(32)>>)
 
 (* AEADs: prefix, tag bytes, nonce bytes, key bytes, may be unavailable on this CPU *)
-Aeads == {<<"crypto_aead_chacha20poly1305", 16, 8, 32, FALSE>>, <<"crypto_aead_chacha20poly1305_ietf", 16, 12, 32, FALSE>>,
-          <<"crypto_aead_xchacha20poly1305_ietf", 16, 24, 32, FALSE>>, <<"crypto_aead_aes256gcm", 16, 12, 32, TRUE>>,
-          <<"crypto_aead_aegis128l", 32, 16, 16, FALSE>>, <<"crypto_aead_aegis256", 32, 32, 32, FALSE>>}
+\* ... , supports "m = NULL: verify the tag only"
+Aeads == {<<"crypto_aead_chacha20poly1305", 16, 8, 32, FALSE, TRUE>>, <<"crypto_aead_chacha20poly1305_ietf", 16, 12, 32, FALSE, TRUE>>,
+          <<"crypto_aead_xchacha20poly1305_ietf", 16, 24, 32, FALSE, TRUE>>, <<"crypto_aead_aes256gcm", 16, 12, 32, TRUE, TRUE>>,
+          <<"crypto_aead_aegis128l", 32, 16, 16, FALSE, FALSE>>, <<"crypto_aead_aegis256", 32, 32, 32, FALSE, FALSE>>}
 MkA(x, fn, L1, L2, CM, code, F(_, _)) == IF x[5] THEN MkOpt(fn, L1, L2, CM, code, F) ELSE Mk(fn, L1, L2, CM, code, F)
 AeadOf(x) ==
   MkA(x, x[1] \o "_encrypt", Lm, Lad, Z, "ok", LAMBDA a, b : <<Out(a + x[2]), LenP, Inz(a), Inz(b), In(x[3]), In(x[4])>>) \cup
@@ -148,7 +149,11 @@ AeadOf(x) ==
   MkA(x, x[1] \o "_decrypt", Lm, Lad, {0, 1}, "open", LAMBDA a, b : <<Outz(a), LenP, In(a + x[2]), Inz(b), In(x[3]), In(x[4])>>) \cup
   MkA(x, x[1] \o "_decrypt_short", 0..(x[2] - 1), {0, 17}, Z, "fail", LAMBDA a, b : <<Outz(0), LenP, In(a), Inz(b), In(x[3]), In(x[4])>>) \cup
   MkA(x, x[1] \o "_encrypt_detached", Lm, {0, 17}, Z, "ok", LAMBDA a, b : <<Out(a), Out(x[2]), LenP, Inz(a), Inz(b), In(x[3]), In(x[4])>>) \cup
-  MkA(x, x[1] \o "_decrypt_detached", Lm, {0, 17}, {0, 1}, "open", LAMBDA a, b : <<Outz(a), In(a), In(x[2]), Inz(b), In(x[3]), In(x[4])>>)
+  MkA(x, x[1] \o "_decrypt_detached", Lm, {0, 17}, {0, 1}, "open", LAMBDA a, b : <<Outz(a), In(a), In(x[2]), Inz(b), In(x[3]), In(x[4])>>) \cup
+  (IF x[6] THEN
+     MkA(x, x[1] \o "_decrypt_verifyonly", Lm, Lad, {0, 1}, "open", LAMBDA a, b : <<LenP, In(a + x[2]), Inz(b), In(x[3]), In(x[4])>>) \cup
+     MkA(x, x[1] \o "_decrypt_detached_verifyonly", Lm, Lad, {0, 1}, "open", LAMBDA a, b : <<In(a), In(x[2]), Inz(b), In(x[3]), In(x[4])>>)
+   ELSE {})
 AesNm ==
   MkOpt("crypto_aead_aes256gcm_beforenm", Z, Z, Z, "ok", LAMBDA a, b : <<St(StateBytes.aes256gcm), In(32)>>) \cup
   MkOpt("crypto_aead_aes256gcm_encrypt_afternm", Ls, {0, 17}, Z, "ok", LAMBDA a, b : <<Out(a + 16), LenP, Inz(a), Inz(b), In(12), St(StateBytes.aes256gcm)>>) \cup
